@@ -247,8 +247,12 @@ def launch_ids(pipe: str, rs: dict, scratch: str, extra: List[str], csv_variant:
         f.write(yaml_text if yaml_text is not None else yaml.safe_dump(cfg, sort_keys=False))
     res = cli.run_cli(["run", yp, "-q", *extra])
     records, _ = cli.collect_trace(tpath)
+    LAST_RECORDS[:] = records
     st = [r for r in records if r.get("record_type") == "run_space_start"]
     return (st[0] if st else None), cfg, res
+
+
+LAST_RECORDS: List[dict] = []  # all records of the most recent launch_ids() launch
 
 
 def judge_ids(scratch: str, tier: str) -> Tuple[int, List[Tuple[str, str, dict]]]:
@@ -325,6 +329,29 @@ def judge_ids(scratch: str, tier: str) -> Tuple[int, List[Tuple[str, str, dict]]
             bad("generated-launch-ids-collide", "two generated launch ids are equal")
         if e["run_space_launch_id"] != "my-launch" or e["run_space_attempt"] != 2:
             bad("explicit-launch-id-ignored", f"{e['run_space_launch_id']} attempt {e['run_space_attempt']}")
+        # every launch-id option x every attempt: the requested attempt (default 1) is on run_space_start, on every
+        # pipeline_start and on run_space_end, together with one launch id; a retry of a keyed launch keeps the launch id
+        ids_by_opt: Dict[str, set] = {}
+        for oname, oargs in (("generated", []), ("explicit", ["--run-space-launch-id", "L-7"]), ("key", ["--run-space-idempotency-key", "k1"])):
+            for att in (None, 1, 2, 3):
+                if tier == "quick" and rsname not in ("zip", "csv") and att in (1, 3):
+                    continue
+                s_, _, r_ = launch_ids(pipe, rs, scratch, oargs + ([] if att is None else ["--run-space-attempt", str(att)]))
+                n_eval += 1
+                want = 1 if att is None else att
+                if s_ is None:
+                    bad("launch-bracket-broken", f"launch id option {oname}, attempt {att}: no run_space_start ({r_.err[-150:]})")
+                    continue
+                recs = [r for r in LAST_RECORDS if r.get("record_type") in ("run_space_start", "pipeline_start", "run_space_end")]
+                wrong = [(r["record_type"], r.get("run_space_attempt")) for r in recs if r.get("run_space_attempt") != want]
+                if wrong:
+                    bad(f"wrong-attempt|{oname}", f"launch id option {oname}, --run-space-attempt {att}: records carry {wrong[:3]} instead of attempt {want}")
+                lids = {r.get("run_space_launch_id") for r in recs}
+                if len(lids) != 1:
+                    bad("launch-ids-differ", f"launch id option {oname}, attempt {att}: records carry launch ids {sorted(map(str, lids))}")
+                ids_by_opt.setdefault(oname, set()).update(lids)
+        if len(ids_by_opt.get("key", {0})) != 1 or len(ids_by_opt.get("explicit", {0})) != 1:
+            bad("launch-id-depends-on-attempt", f"retries of one keyed / explicit launch carry launch ids {ids_by_opt.get('key')} / {ids_by_opt.get('explicit')}")
         rs_m = yamlrw.set_(rs, ("blocks", 0, "context", "a", 0), 1.0) if "a" in rs["blocks"][0].get("context", {}) else None
         if rs_m:
             d, _, _ = launch_ids(pipe, rs_m, scratch, ["--run-space-idempotency-key", "k1"])
